@@ -81,12 +81,19 @@ def perform(cl, values, call):
     op, ei, di = call
     tp = cl.types[ei]
     try:
+        # every third datum goes through a *fresh* default_conversion callable equivalent to the default one: the recursion
+        # analysis is memoised per default_conversion, so such calls are first uses again, under another callable
+        kw = {}
+        if di % 3 == 1 and op in ("deserialize", "serialize"):
+            from apischema.conversions.converters import default_deserialization, default_serialization
+            base = default_deserialization if op == "deserialize" else default_serialization
+            kw["default_conversion"] = lambda t, _base=base: _base(t)
         if op == "deserialize":
             data = cl.data[ei]
             d = (data["valid"] + data["bad"])[di]
-            res = ["ok", canon(apischema.deserialize(tp, d))]
+            res = ["ok", canon(apischema.deserialize(tp, d, **kw))]
         elif op == "serialize":
-            res = ["ok", apischema.serialize(tp, values[ei][di])]
+            res = ["ok", apischema.serialize(tp, values[ei][di], **kw)]
         elif op == "serialize_any":  # typeless: goes through the shared Any method, which selects a method per runtime class
             res = ["ok", apischema.serialize(values[ei][di])]
         elif op == "serialize_conv":
